@@ -63,8 +63,9 @@ class C02(Check):
         "8K/(g pi^2 d^4) q|q|; a CV pipe / (repaired) head pump that stays open through the post-solve pass has flow >= -Qtol. "
         "Real rows, status conditions and real simulations are checked against the Lean driver on every run.",
         design_ref="DESIGN.md §5 C02",
-        note="partial on numerics: Newton / LU / IEEE rounding and scipy curve_fit (3-point curves) are not modelled; assumed: 'converged => "
-        "max|row| < TOL' (observed on every solve). The statement 'pumps never report reverse flow' is FALSE of the pinned tree: head "
+        note="partial on numerics: LU / IEEE rounding and scipy curve_fit (a contract parameter, see headPumpFit_3pt_curve_fit) are not modelled; the only "
+        "fact used of the solver is 'converged => max|row| < TOL'. That NewtonSolver.solve returns `converged` only for a model state with max|r| < TOL is not a trusted reading of solvers.py: it is the theorem newton_converged_implies_small_residual (Props/C16Newton.lean, over Model/Newton.lean, for every residual function, linear-solve behaviour and option set), tied to the source on every C16 run by the regenerated skeleton Gen/NewtonShape.lean, the replay of every observed solve call through Drivers/NewtonDriver.lean, and the re-evaluation of max|r| on the real model after each converged return; this check additionally re-evaluates max|r| on the real model after every converged return of its own runs. "
+        "The statement 'pumps never report reverse flow' is FALSE of the pinned tree: head "
         "pumps (fix proposed: fixes/C02-head-pump-reverse-flow.patch, the Lean model follows the repaired condition; counterexample "
         "theorem for the as-coded one) and power pumps (known finding power-pump-reverse-flow; counterexample + partial theorem). "
         "2-point pump curves were fitted with a parabola formula (fix: fixes/C02-two-point-pump-curve.patch; gen_fit2_is_model fails "
@@ -82,11 +83,12 @@ class C02(Check):
     trusted_base = [
         "translator harness/translate/rows_c01c02.py (amldump reflection; constants / literals read off the running code; symbolic trace of param.py and the pump fits)",
         "Real.rpow as the meaning of aml `**`; libm pow for the two spline end values",
-        "NewtonSolver contract 'converged => max|residual| < TOL' (observed at every return, not proved)",
+        "'converged => max|residual| < TOL' is theorem newton_converged_implies_small_residual (Props/C16Newton.lean over Model/Newton.lean, tied to solvers.py "
+        "by C16: Gen/NewtonShape.lean, Drivers/NewtonDriver.lean replay, re-evaluated max|r|); here it is re-observed at every converged return of this check's runs",
         "scipy.optimize.curve_fit (3-point curves): coefficients taken from the code, fit residual reported in the evidence only",
     ]
     assumptions = [
-        "the run converged at the reported step; link not isolated",
+        "the step is REPORTED (every reported step is judged, whatever options.hydraulic.unbalanced / trials are); link not isolated",
         "pump speed 1.0 (the simulator refuses other speeds)",
     ]
 
